@@ -32,11 +32,7 @@ Iso(g, h) == /\ Cardinality(g) = Cardinality(h)
              /\ \E f \in Bijections(BNodes3(g), BNodes3(h)) : Rename3(g, f) = h
 (* datasets: quads <<s, p, o, gname>>, gname a term record; ONE bijection for all graphs, graph names included *)
 IsoDs(q, r) == /\ Cardinality(q) = Cardinality(r)
-               /\ Cardinality(BNodes3(q)) = Cardinality(BNodes3(r))
-               /\ \E f \in Bijections(BNodes3(q), BNodes3(r)) : Rename4(q, f) = r
+               /\ Cardinality(BNodes4(q)) = Cardinality(BNodes4(r))
+               /\ \E f \in Bijections(BNodes4(q), BNodes4(r)) : Rename4(q, f) = r
 (* the bijection must be the identity on the blank nodes in Keep (pre-existing nodes, C12) *)
-IsoFix(g, h, Keep) == /\ Cardinality(g) = Cardinality(h)
-                      /\ Keep \subseteq BNodes3(g) \cap BNodes3(h) \/ Keep \cap (BNodes3(g) \cup BNodes3(h)) = Keep \cap BNodes3(g) \cap BNodes3(h)
-                      /\ Cardinality(BNodes3(g) \ Keep) = Cardinality(BNodes3(h) \ Keep)
-                      /\ \E f \in Bijections(BNodes3(g) \ Keep, BNodes3(h) \ Keep) : Rename3(g, f) = h
 ===============================================================================
